@@ -29,7 +29,7 @@ from pymbolic.mapper import IdentityMapper
 from pytools import UniqueNameGenerator
 
 from dagrt.codegen.dag_ast import (
-    ASTIdentityMapper, Block, StatementWrapper, get_statements_in_ast)
+    ASTIdentityMapper, Block, IfThen, StatementWrapper, get_statements_in_ast)
 
 
 __doc__ = """
@@ -60,8 +60,19 @@ class ASTStatementRewriter(ASTIdentityMapper):
         self.var_name_gen = var_name_gen
 
     def map_StatementWrapper(self, expr):
+        def to_ast(stmt):
+            # Statements made by a rewriter may carry a condition (e.g. the
+            # two branches of an expanded if-then-else expression). In an
+            # AST, that condition has to become an 'if' node, or it is lost.
+            if stmt.condition is not True:
+                return IfThen(
+                        stmt.condition,
+                        StatementWrapper(stmt.copy(condition=True)))
+            else:
+                return StatementWrapper(stmt)
+
         new_statements = [
-                StatementWrapper(stmt)
+                to_ast(stmt)
                 for stmt in self.map_statement(expr.statement)]
 
         if len(new_statements) > 1:
